@@ -131,6 +131,39 @@ def judge_device(items, accept, exp_type, exp_v):
     return None
 
 
+def check_buffer_carriers():
+    """The items of the sequence are what counts, whatever container carries them: arrays of
+    signed or wide integers are sequences of integers like any list."""
+    import array
+    import mido
+    out = []
+    cases = [(array.array('b', [-112, 60, 64]), None), (array.array('b', [-8]), None),
+             (memoryview(array.array('b', [-80, 7, 100])), None), (array.array('H', [0x3cc0]), None),
+             (array.array('h', [-2064]), None), (array.array('i', [0x90, 60, 300]), None),
+             (array.array('q', [0xf0, 1, 2, 0xf7 + 256]), None), (array.array('H', [0x90, 60]), None),
+             (array.array('H', [0x90, 60, 64]), [0x90, 60, 64]), (array.array('B', [0xc1, 5]), [0xc1, 5]),
+             (array.array('i', [0xf8]), [0xf8]), (array.array('q', [0xf0, 1, 2, 0xf7]), [0xf0, 1, 2, 0xf7]),
+             (array.array('l', [0xe3, 0, 64]), [0xe3, 0, 64]), (range(0xf8, 0xf9), [0xf8]),
+             (range(0x90, 0x93), None)]
+    for carrier, exp in cases:
+        label = '%s%s' % (type(carrier).__name__, (' ' + carrier.typecode) if hasattr(carrier, 'typecode') else '')
+        items = list(carrier.tolist() if hasattr(carrier, 'tolist') else []) or exp
+        try:
+            m = mido.Message.from_bytes(carrier)
+        except (ValueError, TypeError) as e:
+            if exp is not None:
+                out.append(('rejects-valid/carrier', {'kind': 'carriers'}, 'from_bytes(%s of %r) raised %r' % (label, items, e)))
+            continue
+        except Exception as e:
+            out.append(('wrong-exception/%s/carrier' % type(e).__name__, {'kind': 'carriers'},
+                        'from_bytes(%s of %r) raised %r' % (label, items, e)))
+            continue
+        if exp is None or list(m.bytes()) != exp:
+            out.append(('accepts-invalid/carrier', {'kind': 'carriers'},
+                        'from_bytes(%s holding the integers %r) returned %s' % (label, items, core.srepr(m))))
+    return out[:3]
+
+
 def check_device_sequences():
     """Each delivery of the device is judged on its own: what an earlier delivery
     left unfinished must not turn a later malformed one into a message."""
@@ -205,6 +238,9 @@ def worker(lines):
 
 
 def replay(case):
+    if case.get('kind') == 'carriers':
+        v = check_buffer_carriers()
+        return v and v[0][2]
     if case.get('kind') == 'devseq':
         v = check_device_sequences()
         return v and v[0][2]
@@ -357,9 +393,13 @@ def run(ctx):
         'converse direction (every Encode(m) is accepted) rests on RoundTrip checked in C01',
         'non-integer items are represented by the objects %r' % (NONINT,),
     ]
+    for key, case, msg in check_buffer_carriers():
+        ctx.violation('from_bytes/' + key, case, msg)
+    ctx.replayed += 16
     for key, case, msg in check_device_sequences():
         ctx.violation('from_bytes/' + key, case, msg)
     ctx.replayed += 60
     # re-entrancy: two threads inside these functions at once, a switch possible before every statement
     from .. import conc
     conc.run_scenarios(ctx, 'C02', 2 if ctx.tier == 'thorough' else 1)
+    conc.first_use(ctx, 'C02', 120 if ctx.tier == 'thorough' else 40)
